@@ -52,6 +52,14 @@ fn contains(hay: &[u8], needle: &[u8]) -> bool {
     hay.windows(needle.len()).any(|w| w == needle)
 }
 
+/// What a party does with bytes it receives before using them: parse, then restore compacted fields
+/// (`Pczt::resolve_fields`, the documented consumer step for copies a Redactor compacted).
+fn parse_resolved(b: &[u8]) -> Result<Pczt, String> {
+    let mut p = Pczt::parse(b).map_err(|e| format!("{e:?}"))?;
+    p.resolve_fields().map_err(|e| format!("resolve_fields: {e:?}"))?;
+    Ok(p)
+}
+
 fn ser(p: &Pczt) -> Result<Vec<u8>, Violation> {
     catch(|| p.clone().serialize()).map_err(|m| Violation::new("no_panic", format!("Pczt::serialize panicked: {m}")))?.map_err(|e| Violation::new("pczt_serialises", format!("{e:?}")))
 }
@@ -123,6 +131,8 @@ enum Role {
     Proved(Arc<Vec<u8>>),
     Updater(&'static str),
     Redactor,
+    /// a Redactor that compacts what the receiver can re-derive (cv_net, cmx, note ciphertext -> memo plaintext)
+    Compactor,
 }
 
 struct Template {
@@ -139,6 +149,8 @@ struct Template {
     orchard_ask: Option<orchard::keys::SpendAuthorizingKey>,
     /// a PCZT for a different transaction over the same inputs (must conflict in the Combiner)
     other_tx: Option<Vec<u8>>,
+    /// copies from before `base` (the Creator's, before the IO Finaliser ran; ...): what a slow party may still hold
+    earlier: Vec<Vec<u8>>,
 }
 
 fn std_roles(roles: &mut Vec<(String, Role)>) {
@@ -152,19 +164,29 @@ fn cfg_none() -> BuildConfig {
 }
 
 /// Creator and IO Finaliser with their monitors.
-fn create_and_finalize(parts: zcash_primitives::transaction::builder::PcztParts<LocalNetwork>) -> Result<(Pczt, [u8; 32]), Violation> {
+fn create_and_finalize(parts: zcash_primitives::transaction::builder::PcztParts<LocalNetwork>, edit: &dyn Fn(Pczt) -> Pczt) -> Result<(Pczt, [u8; 32], Vec<u8>), Violation> {
     let pczt = catch(|| Creator::build_from_parts(parts)).map_err(|m| Violation::new("no_panic", format!("Creator panicked: {m}")))?.ok_or_else(|| Violation::new("creator_succeeds", "Creator::build_from_parts returned None"))?;
+    let pczt = edit(pczt);
     let (b0, _) = encoding_monitor(&pczt, "Creator")?;
     let txid0 = txid_of(&pczt).map_err(|e| Violation::new("txid_derivable", format!("creator's PCZT: {e}")))?;
     let fin = catch(|| IoFinalizer::new(Pczt::parse(&b0).unwrap()).finalize_io()).map_err(|m| Violation::new("no_panic", format!("IoFinalizer panicked: {m}")))?;
     let fin = fin.map_err(|e| Violation::new("io_finalizer_succeeds", format!("{e:?}")))?;
     encoding_monitor(&fin, "IoFinalizer")?;
     same_txid(&fin, &txid0, "IoFinalizer")?;
-    Ok((fin, txid0))
+    Ok((fin, txid0, b0))
 }
 
 /// A transparent-only transaction. `variant` changes one effecting field (an output value).
-fn build_transparent(v6: bool, n_in: usize, n_out: usize, values: &[u64], variant: u64, rng_seed: u64) -> Result<Result<(Pczt, [u8; 32]), Violation>, String> {
+/// Lock-time content a Constructor may have put into the Creator's copy: the fallback lock time and one
+/// input's required height lock time. The repository's own Builder never sets the latter, so it is written
+/// through the field-level seam, standing in for a PCZT that came from another implementation.
+#[derive(Clone, Copy, Debug, Default)]
+struct LockSpec {
+    fallback: Option<u32>,
+    required_height: Option<(usize, u32)>,
+}
+
+fn build_transparent(v6: bool, n_in: usize, n_out: usize, values: &[u64], variant: u64, rng_seed: u64, lock: LockSpec) -> Result<Result<(Pczt, [u8; 32], Vec<u8>), Violation>, String> {
     let params = full_net(if v6 { Some(1) } else { None });
     let keys: Vec<Keyed> = (0..n_in as u32).map(key).collect();
     let dest = key(77).addr;
@@ -192,7 +214,22 @@ fn build_transparent(v6: bool, n_in: usize, n_out: usize, values: &[u64], varian
     }
     let b = make(total_in - pays - fee)?;
     let PcztResult { pczt_parts, .. } = b.build_for_pczt(SubRng::new(rng_seed), &zip317::FeeRule::standard()).map_err(|e| format!("{e:?}"))?;
-    Ok(create_and_finalize(pczt_parts))
+    let edit = move |p: Pczt| -> Pczt {
+        if lock.fallback.is_none() && lock.required_height.is_none() {
+            return p;
+        }
+        let Ok(mut v) = to_value(&p) else { return p };
+        if let Some(n) = lock.fallback {
+            if let Some(f) = field_mut(&mut v, &["global", "fallback_lock_time"]) {
+                *f = ciborium::Value::Integer(n.into());
+            }
+        }
+        if let Some((i, h)) = lock.required_height {
+            let _ = set_input_field(&mut v, i, "required_height_lock_time", ciborium::Value::Integer(h.into()));
+        }
+        from_value(&v).unwrap_or(p)
+    };
+    Ok(create_and_finalize(pczt_parts, &edit))
 }
 
 fn sapling_prover() -> &'static LocalTxProver {
@@ -295,7 +332,7 @@ fn build_shielded_v5(variant: u64, prove: bool) -> Result<Template, Violation> {
         b.add_transparent_p2pkh_input(tk.pk, OutPoint::new(h, 0), TxOut::new(Zatoshis::const_from_u64(500_000), tk.addr.script().into())).map_err(|e| format!("{e:?}"))?;
         b.add_sapling_spend::<zip317::FeeRule>(dfvk.fvk().clone(), s_note.clone(), s_path.clone()).map_err(|e| format!("{e:?}"))?;
         b.add_orchard_spend::<zip317::FeeRule>(ofvk.clone(), o_note, o_path.clone()).map_err(|e| format!("{e:?}"))?;
-        b.add_orchard_output::<zip317::FeeRule>(Some(ofvk.to_ovk(orchard::keys::Scope::External)), o_recipient, Zatoshis::from_u64(100_000 + variant).unwrap(), MemoBytes::empty()).map_err(|e| format!("{e:?}"))?;
+        b.add_orchard_output::<zip317::FeeRule>(Some(ofvk.to_ovk(orchard::keys::Scope::External)), o_recipient, Zatoshis::from_u64(100_000 + variant).unwrap(), MemoBytes::from_bytes(b"a memo that is shorter than the field").unwrap()).map_err(|e| format!("{e:?}"))?;
         b.add_transparent_output(&dest, Zatoshis::const_from_u64(50_000)).map_err(|e| format!("{e:?}"))?;
         b.add_sapling_output::<zip317::FeeRule>(Some(dfvk.to_ovk(zip32::Scope::Internal)), internal_dfvk.find_address(0u32.into()).unwrap().1, Zatoshis::from_u64(change).unwrap(), MemoBytes::empty()).map_err(|e| format!("{e:?}"))?;
         Ok(b)
@@ -303,7 +340,8 @@ fn build_shielded_v5(variant: u64, prove: bool) -> Result<Template, Violation> {
     let fee = u64::from(make(1000).map_err(harness)?.get_fee(&zip317::FeeRule::standard()).map_err(|e| harness(format!("{e:?}")))?);
     let b = make(2_500_000 - 150_000 - variant - fee).map_err(harness)?;
     let PcztResult { pczt_parts, sapling_meta, orchard_meta, .. } = b.build_for_pczt(SubRng::new(0xB01D + variant), &zip317::FeeRule::standard()).map_err(|e| harness(format!("build_for_pczt: {e:?}")))?;
-    let (fin, txid0) = create_and_finalize(pczt_parts)?;
+    let (fin, txid0, creator) = create_and_finalize(pczt_parts, &|p| p)?;
+    let fin_bytes = ser(&fin)?;
     let s_idx = sapling_meta.spend_index(0).unwrap();
     let o_idx = orchard_meta.spend_action_index(0).unwrap();
     let base_p = Updater::new(fin)
@@ -326,8 +364,9 @@ fn build_shielded_v5(variant: u64, prove: bool) -> Result<Template, Violation> {
     }
     let required = roles.iter().map(|(n, _)| n.clone()).collect();
     std_roles(&mut roles);
+    roles.push(("compactor".into(), Role::Compactor));
     let other_tx = if prove { build_shielded_v5(variant + 1, false).ok().map(|t| t.base) } else { None };
-    Ok(Template { name: "v5_t+sapling+orchard", base, txid0, roles, required, sapling: true, t_keys: vec![tk], sapling_ask: Some(extsk.expsk.ask.clone()), orchard_ask: Some(oask), other_tx })
+    Ok(Template { name: "v5_t+sapling+orchard", base, txid0, roles, required, sapling: true, t_keys: vec![tk], sapling_ask: Some(extsk.expsk.ask.clone()), orchard_ask: Some(oask), other_tx, earlier: vec![creator, fin_bytes] })
 }
 
 /// v6 format: one transparent input and one Ironwood spend; Ironwood output and a transparent output.
@@ -352,14 +391,14 @@ fn build_shielded_v6(variant: u64, prove: bool) -> Result<Template, Violation> {
         h[0] = 1;
         b.add_transparent_p2pkh_input(tk.pk, OutPoint::new(h, 0), TxOut::new(Zatoshis::const_from_u64(500_000), tk.addr.script().into())).map_err(|e| format!("{e:?}"))?;
         b.add_ironwood_spend::<zip317::FeeRule>(ofvk.clone(), note, path.clone()).map_err(|e| format!("{e:?}"))?;
-        b.add_ironwood_output::<zip317::FeeRule>(Some(ofvk.to_ovk(orchard::keys::Scope::External)), recipient, Zatoshis::from_u64(change).unwrap(), MemoBytes::empty()).map_err(|e| format!("{e:?}"))?;
+        b.add_ironwood_output::<zip317::FeeRule>(Some(ofvk.to_ovk(orchard::keys::Scope::External)), recipient, Zatoshis::from_u64(change).unwrap(), MemoBytes::from_bytes(&[0x5a; 512]).unwrap()).map_err(|e| format!("{e:?}"))?;
         b.add_transparent_output(&dest, Zatoshis::from_u64(50_000 + variant).unwrap()).map_err(|e| format!("{e:?}"))?;
         Ok(b)
     };
     let fee = u64::from(make(1000).map_err(harness)?.get_fee(&zip317::FeeRule::standard()).map_err(|e| harness(format!("{e:?}")))?);
     let b = make(1_500_000 - 50_000 - variant - fee).map_err(harness)?;
     let PcztResult { pczt_parts, ironwood_meta, .. } = b.build_for_pczt(SubRng::new(0xB02D + variant), &zip317::FeeRule::standard()).map_err(|e| harness(format!("build_for_pczt: {e:?}")))?;
-    let (fin, txid0) = create_and_finalize(pczt_parts)?;
+    let (fin, txid0, creator) = create_and_finalize(pczt_parts, &|p| p)?;
     let idx = ironwood_meta.spend_action_index(0).unwrap();
     let (base, _) = encoding_monitor(&fin, "IoFinalizer")?;
     let mut roles: Vec<(String, Role)> = vec![("signerT0".into(), Role::SignT(0)), ("signerIronwood".into(), Role::SignIronwood(idx))];
@@ -371,8 +410,9 @@ fn build_shielded_v6(variant: u64, prove: bool) -> Result<Template, Violation> {
     }
     let required = roles.iter().map(|(n, _)| n.clone()).collect();
     std_roles(&mut roles);
+    roles.push(("compactor".into(), Role::Compactor));
     let other_tx = if prove { build_shielded_v6(variant + 1, false).ok().map(|t| t.base) } else { None };
-    Ok(Template { name: "v6_t+ironwood", base, txid0, roles, required, sapling: false, t_keys: vec![tk], sapling_ask: None, orchard_ask: Some(oask), other_tx })
+    Ok(Template { name: "v6_t+ironwood", base, txid0, roles, required, sapling: false, t_keys: vec![tk], sapling_ask: None, orchard_ask: Some(oask), other_tx, earlier: vec![creator] })
 }
 
 fn shielded(v6: bool) -> &'static Result<Template, Violation> {
@@ -393,7 +433,9 @@ fn shielded(v6: bool) -> &'static Result<Template, Violation> {
 struct Msg {
     from: String,
     bytes: Vec<u8>,
+    /// damaged in transit, or changed by a faulty party (then `what` says which field)
     corrupted: bool,
+    what: String,
 }
 
 impl Template {
@@ -442,6 +484,10 @@ impl Template {
                         g.clear_proprietary();
                     })
                     .finish()),
+                Role::Compactor => Ok(Redactor::new(p)
+                    .redact_orchard_with(|mut r| r.compact_resolvable_fields())
+                    .redact_ironwood_with(|mut r| r.compact_resolvable_fields())
+                    .finish()),
                 Role::Proved(_) => unreachable!(),
             }
         });
@@ -454,7 +500,20 @@ impl Template {
             Ok(Ok(q)) => {
                 let b = check_encoding(ctx, &q, name)?;
                 ctx.oracle("txid_invariant");
-                same_txid(&q, &self.txid0, name)?;
+                if matches!(role, Role::Compactor) {
+                    // the documented consumer side: restore the compacted fields, then read the identifier
+                    let mut r = Pczt::parse(&b).map_err(|e| Violation::new("serialised_pczt_parses", format!("{name}: {e:?}")))?;
+                    match catch(|| r.resolve_fields().map(|_| r)) {
+                        Err(m) => return Err(Violation::new("no_panic", format!("resolve_fields panicked on a compacted copy: {m}"))),
+                        Ok(Err(e)) => return Err(Violation::new("compacted_fields_resolve", format!("resolve_fields failed on the copy the Redactor compacted: {e:?}"))),
+                        Ok(Ok(r)) => {
+                            same_txid(&r, &self.txid0, "Redactor(compact)+resolve_fields")?;
+                            ctx.probe("compacted_copy_resolved");
+                        }
+                    }
+                } else {
+                    same_txid(&q, &self.txid0, name)?;
+                }
                 Ok(Some(b))
             }
         }
@@ -508,9 +567,15 @@ impl PcztSim {
         let base = t.base.clone();
         let txid0 = t.txid0;
         let mut current = base.clone();
-        let mut history: Vec<Vec<u8>> = vec![base.clone()];
+        let mut history: Vec<Vec<u8>> = t.earlier.clone();
+        history.push(base.clone());
         let mut transit: Vec<Msg> = vec![];
         let mut honest_replies: Vec<Vec<u8>> = vec![];
+        let mut labels: std::collections::BTreeMap<Vec<u8>, String> = Default::default();
+        labels.insert(base.clone(), "base".into());
+        for (i, e) in t.earlier.iter().enumerate() {
+            labels.insert(e.clone(), format!("earlier{i}"));
+        }
         let mut honest_roles: BTreeSet<String> = BTreeSet::new();
         let mut delivered: BTreeSet<String> = BTreeSet::new();
         let mut signed_once: std::collections::BTreeMap<String, Vec<u8>> = Default::default();
@@ -523,7 +588,7 @@ impl PcztSim {
                 break;
             }
             ch.open("step");
-            let k = ch.weighted("step", &[45, 45, 10]);
+            let k = ch.weighted("step", &[42, 42, 8, if faulty { 6 } else { 0 }, if faulty { 2 } else { 0 }]);
             let r: SimResult = (|| {
                 match k {
                     // ---- dispatch the current (or a stale) copy to a party
@@ -555,9 +620,10 @@ impl PcztSim {
                             ctx.shape(&format!("d:{name}"));
                             if !matches!(role, Role::Redactor) && !tainted {
                                 honest_replies.push(reply.clone());
+                                labels.entry(reply.clone()).or_insert_with(|| format!("{name}{}", if stale { "(on a stale copy)" } else { "" }));
                                 honest_roles.insert(name.clone());
                             }
-                            let mut m = Msg { from: name.clone(), bytes: reply, corrupted: false };
+                            let mut m = Msg { from: name.clone(), bytes: reply, corrupted: false, what: String::new() };
                             if faulty {
                                 match ch.weighted("transport", &[70, 8, 8, 7, 7]) {
                                     0 => transit.push(m),
@@ -611,6 +677,17 @@ impl PcztSim {
                             }
                             Ok(p) => p,
                         };
+                        let mut p = p;
+                        match catch(|| p.resolve_fields()).map_err(|e| Violation::new("no_panic", format!("resolve_fields panicked on a {kind} message: {e}")))? {
+                            Ok(()) => {}
+                            Err(e) => {
+                                if !m.corrupted {
+                                    return Err(Violation::new("compacted_fields_resolve", format!("resolve_fields failed on an uncorrupted message from {}: {e:?}", m.from)));
+                                }
+                                ctx.shape("corrupt_rejected_at_resolve");
+                                return Ok(());
+                            }
+                        }
                         let cur = Pczt::parse(&current).unwrap();
                         let order = ch.chance("combine.order", 1, 2);
                         let c = catch(|| if order { Combiner::new(vec![p.clone(), cur.clone()]).combine() } else { Combiner::new(vec![cur.clone(), p.clone()]).combine() }).map_err(|e| Violation::new("no_panic", format!("Combiner panicked on a {kind} message: {e}")))?;
@@ -626,6 +703,13 @@ impl PcztSim {
                                 if m.corrupted {
                                     tainted = true;
                                     ctx.probe("corrupted_message_merged");
+                                    // a copy that by itself describes a *different* transaction conflicts with ours
+                                    if let Ok(tm) = txid_of(&p) {
+                                        if tm != txid0 {
+                                            let field = m.what.split(':').next().unwrap_or("").split('[').next().unwrap_or("").to_string();
+                                            return Err(Violation::keyed("conflicting_copies_refused", format!("conflicting_copies_refused:{}", if field.is_empty() { "in_transit" } else { &field }), format!("a copy that implies txid {} ({}) was combined with the coordinator's copy (txid {}) without an error", hex::encode(&tm[..6]), if m.what.is_empty() { "damaged in transit" } else { &m.what }, hex::encode(&txid0[..6]))));
+                                        }
+                                    }
                                 }
                                 // whatever was merged, the result may never describe a different transaction
                                 match txid_of(&c) {
@@ -655,6 +739,33 @@ impl PcztSim {
                                     }
                                 }
                             }
+                        }
+                    }
+                    // ---- a faulty party: it returns the copy it holds with one field changed
+                    3 => {
+                        ctx.op("faulty_party_reply");
+                        let cur = Pczt::parse(&current).unwrap();
+                        let Ok(mut v) = to_value(&cur) else { return Ok(()) };
+                        let Some(what) = mutate_field(&mut v, ch) else { return Ok(()) };
+                        match catch(|| from_value(&v)).map_err(|m| Violation::new("no_panic", format!("parsing a copy with one changed field ({what}) panicked: {m}")))? {
+                            Err(_) => ctx.shape("field_change_unrepresentable"),
+                            Ok(p) => {
+                                let bytes = ser(&p)?;
+                                if bytes != current {
+                                    ctx.fault("party_changes_field");
+                                    ctx.event(format!("a faulty party changed {what}"));
+                                    transit.push(Msg { from: "faulty".into(), bytes, corrupted: true, what });
+                                }
+                            }
+                        }
+                    }
+                    // ---- a copy from before the IO Finaliser (or an Updater) ran arrives late
+                    4 => {
+                        if !t.earlier.is_empty() {
+                            ctx.op("late_early_copy");
+                            ctx.fault("msg_delay_stale");
+                            let b = t.earlier[ch.idx("early.i", t.earlier.len())].clone();
+                            transit.push(Msg { from: "earlier".into(), bytes: b, corrupted: false, what: String::new() });
                         }
                     }
                     // ---- somebody tries to finish early: extraction succeeds iff every contribution has arrived
@@ -696,12 +807,30 @@ impl PcztSim {
             ctx.oracle("combine_order_grouping_duplication");
             let mut set: Vec<Vec<u8>> = vec![base.clone()];
             set.extend(honest_replies.iter().cloned());
+            if !t.earlier.is_empty() && ch.chance("set.with_earlier", 1, 2) {
+                // copies from before the IO Finaliser ran describe the same transaction too
+                set.extend(t.earlier.iter().cloned());
+                ctx.probe("combination_includes_pre_finalizer_copy");
+            }
             set.sort();
             set.dedup();
-            let parse_all = |v: &[Vec<u8>]| -> Vec<Pczt> { v.iter().map(|b| Pczt::parse(b).unwrap()).collect() };
+            let parse_all = |v: &[Vec<u8>]| -> Vec<Pczt> { v.iter().map(|b| parse_resolved(b).unwrap()).collect() };
             let reference = match catch(|| Combiner::new(parse_all(&set)).combine()) {
                 Ok(Ok(c)) => ser(&c)?,
-                Ok(Err(e)) => return ctx.report(Violation::new("honest_copies_combine", format!("combining {} honest copies failed: {e:?}", set.len()))),
+                Ok(Err(e)) => {
+                    // name the first pair that does not combine
+                    let mut pair = String::new();
+                    'outer: for i in 0..set.len() {
+                        for j in i + 1..set.len() {
+                            let (a, b) = (parse_resolved(&set[i]).unwrap(), parse_resolved(&set[j]).unwrap());
+                            if let Ok(Err(_)) = catch(|| Combiner::new(vec![a, b]).combine()) {
+                                pair = format!("; first conflicting pair: {} + {}", labels.get(&set[i]).cloned().unwrap_or_default(), labels.get(&set[j]).cloned().unwrap_or_default());
+                                break 'outer;
+                            }
+                        }
+                    }
+                    return ctx.report(Violation::new("honest_copies_combine", format!("combining {} honest copies failed: {e:?}{pair}", set.len())));
+                }
                 Err(m) => return ctx.report(Violation::new("no_panic", format!("Combiner panicked: {m}"))),
             };
             if set.len() >= 2 {
@@ -815,10 +944,20 @@ impl Scenario for PcztSim {
                 let n_out = 1 + ch.idx("n_out", 3);
                 let values: Vec<u64> = (0..n_in).map(|_| 200_000 + ch.below("value", 5_000_000)).collect();
                 let seed = ch.u64("build.seed");
-                ctx.config = json!({"pipeline": "transparent", "format": if v6 { "v6" } else { "v5" }, "inputs": n_in, "outputs": n_out});
+                let mut lock = LockSpec::default();
+                if ch.chance("lock.any", 1, 3) {
+                    if ch.chance("lock.fallback", 1, 2) {
+                        lock.fallback = Some(*ch.pick("lock.fallback.n", &[1u32, 1_999_000, 500_000_001]));
+                    }
+                    if ch.chance("lock.required", 1, 2) {
+                        lock.required_height = Some((ch.idx("lock.input", n_in), *ch.pick("lock.height", &[1u32, 1_500_000, 1_999_999])));
+                        ctx.probe("input_requires_height_lock");
+                    }
+                }
+                ctx.config = json!({"pipeline": "transparent", "format": if v6 { "v6" } else { "v5" }, "inputs": n_in, "outputs": n_out, "lock": format!("{lock:?}")});
                 ctx.shape(&format!("{}i{}o{}", if v6 { "v6" } else { "v5" }, n_in, n_out));
                 ctx.probe("pipeline_transparent");
-                let (fin, txid0) = match catch(|| build_transparent(v6, n_in, n_out, &values, 0, seed)) {
+                let (fin, txid0, creator) = match catch(|| build_transparent(v6, n_in, n_out, &values, 0, seed, lock)) {
                     Err(m) => return ctx.report(Violation::new("no_panic", format!("building the transaction panicked: {m}"))),
                     Ok(Err(e)) => {
                         ctx.event(format!("build refused: {e}"));
@@ -832,14 +971,14 @@ impl Scenario for PcztSim {
                 let required = roles.iter().map(|(n, _)| n.clone()).collect();
                 std_roles(&mut roles);
                 let other_tx = if n_out > 1 {
-                    match catch(|| build_transparent(v6, n_in, n_out, &values, 1, seed)) {
-                        Ok(Ok(Ok((p, _)))) => Some(ser(&p)?),
+                    match catch(|| build_transparent(v6, n_in, n_out, &values, 1, seed, lock)) {
+                        Ok(Ok(Ok((p, _, _)))) => Some(ser(&p)?),
                         _ => None,
                     }
                 } else {
                     None
                 };
-                let t = Template { name: "transparent", base, txid0, roles, required, sapling: false, t_keys: (0..n_in as u32).map(key).collect(), sapling_ask: None, orchard_ask: None, other_tx };
+                let t = Template { name: "transparent", base, txid0, roles, required, sapling: false, t_keys: (0..n_in as u32).map(key).collect(), sapling_ask: None, orchard_ask: None, other_tx, earlier: vec![creator] };
                 self.drive(&t, ch, ctx)
             }
             k => {
@@ -884,12 +1023,136 @@ impl Scenario for PcztSim {
         ]
     }
     fn expected_probes(&self) -> Vec<&'static str> {
-        vec!["v1_encoding_chosen", "v2_encoding_chosen", "extracted", "corrupted_message_merged", "pipeline_transparent", "pipeline_v5_sapling_orchard", "pipeline_v6_ironwood"]
+        vec!["v1_encoding_chosen", "v2_encoding_chosen", "extracted", "corrupted_message_merged", "pipeline_transparent", "pipeline_v5_sapling_orchard", "pipeline_v6_ironwood", "compacted_copy_resolved", "combination_includes_pre_finalizer_copy", "input_requires_height_lock"]
     }
     fn fault_kinds(&self) -> Vec<&'static str> {
-        vec!["msg_drop", "msg_dup", "msg_reorder", "msg_corrupt", "msg_truncate", "msg_delay_stale"]
+        vec!["msg_drop", "msg_dup", "msg_reorder", "msg_corrupt", "msg_truncate", "msg_delay_stale", "party_changes_field"]
     }
     fn time_note(&self) -> &'static str {
         "simulated time = messages exchanged between parties"
+    }
+}
+
+// ---------------------------------------------------------------- field-level seam
+
+/// Field-level view of a PCZT through the public v2 serde type: `pczt::v2::Pczt` derives `Serialize` /
+/// `Deserialize`, converts from `Pczt` and serialises to bytes `Pczt::parse` accepts. `ciborium::Value` is a
+/// self-describing tree that can hold every key and value type the PCZT uses.
+fn to_value(p: &Pczt) -> Result<ciborium::Value, String> {
+    let v2 = pczt::v2::Pczt::try_from(p.clone()).map_err(|e| format!("{e:?}"))?;
+    ciborium::Value::serialized(&v2).map_err(|e| e.to_string())
+}
+fn from_value(v: &ciborium::Value) -> Result<Pczt, String> {
+    let v2: pczt::v2::Pczt = v.deserialized().map_err(|e| e.to_string())?;
+    Pczt::parse(&v2.serialize()).map_err(|e| format!("{e:?}"))
+}
+
+fn field_mut<'a>(v: &'a mut ciborium::Value, path: &[&str]) -> Option<&'a mut ciborium::Value> {
+    let mut cur = v;
+    for k in path {
+        let ciborium::Value::Map(m) = cur else { return None };
+        let idx = m.iter().position(|(kk, _)| kk.as_text() == Some(*k))?;
+        cur = &mut m[idx].1;
+    }
+    Some(cur)
+}
+
+/// Sets `transparent.inputs[i].<key>` (None if the shape is not what is expected).
+fn set_input_field(v: &mut ciborium::Value, i: usize, key: &str, val: ciborium::Value) -> Option<()> {
+    let inputs = field_mut(v, &["transparent", "inputs"])?;
+    let ciborium::Value::Array(a) = inputs else { return None };
+    let inp = a.get_mut(i)?;
+    *field_mut(inp, &[key])? = val;
+    Some(())
+}
+
+const NUMERIC_OPTIONALS: [&str; 4] = ["fallback_lock_time", "required_height_lock_time", "required_time_lock_time", "sequence"];
+
+/// Paths (child indices) to every map entry whose value is not itself a non-empty map.
+fn collect_fields(v: &ciborium::Value, path: &mut Vec<usize>, out: &mut Vec<(Vec<usize>, String)>, key: &str) {
+    match v {
+        ciborium::Value::Map(m) if !m.is_empty() => {
+            for (i, (k, val)) in m.iter().enumerate() {
+                path.push(i);
+                let name = k.as_text().map(|s| s.to_string()).unwrap_or_else(|| format!("{key}[key]"));
+                collect_fields(val, path, out, &name);
+                path.pop();
+            }
+        }
+        ciborium::Value::Array(a) if a.iter().any(|x| matches!(x, ciborium::Value::Map(_) | ciborium::Value::Array(_))) => {
+            for (i, val) in a.iter().enumerate() {
+                path.push(i);
+                collect_fields(val, path, out, key);
+                path.pop();
+            }
+        }
+        _ => out.push((path.clone(), key.to_string())),
+    }
+}
+
+fn at_path<'a>(v: &'a mut ciborium::Value, path: &[usize]) -> &'a mut ciborium::Value {
+    let mut cur = v;
+    for i in path {
+        cur = match cur {
+            ciborium::Value::Map(m) => &mut m[*i].1,
+            ciborium::Value::Array(a) => &mut a[*i],
+            _ => unreachable!(),
+        };
+    }
+    cur
+}
+
+/// One field of the copy is changed (a buggy or hostile party, or corruption that survives parsing).
+/// Returns a description, or None when the drawn field cannot be changed meaningfully.
+fn mutate_field(v: &mut ciborium::Value, ch: &mut Choices) -> Option<String> {
+    let mut fields = vec![];
+    collect_fields(v, &mut vec![], &mut fields, "");
+    if fields.is_empty() {
+        return None;
+    }
+    let (path, name) = fields[ch.idx("mut.field", fields.len())].clone();
+    let drop_it = ch.chance("mut.drop", 1, 4);
+    let slot = at_path(v, &path);
+    use ciborium::Value as V;
+    match slot {
+        V::Null => {
+            if NUMERIC_OPTIONALS.contains(&name.as_str()) {
+                let n = *ch.pick("mut.n", &[0u64, 1, 5, 499_999_999, 500_000_000, 0xffff_fffe]);
+                *slot = V::Integer(n.into());
+                Some(format!("{name}: absent -> {n}"))
+            } else {
+                None
+            }
+        }
+        _ if drop_it => {
+            *slot = V::Null;
+            Some(format!("{name}: dropped"))
+        }
+        V::Integer(i) => {
+            let x: i128 = (*i).into();
+            let y = if x == 0 { 1 } else if ch.chance("mut.dec", 1, 2) { x - 1 } else { x + 1 };
+            *slot = V::Integer((y as u64).into());
+            Some(format!("{name}: {x} -> {y}"))
+        }
+        V::Bool(b) => {
+            *b = !*b;
+            Some(format!("{name}: flipped"))
+        }
+        V::Array(a) if !a.is_empty() => {
+            let i = ch.idx("mut.elem", a.len());
+            if let V::Integer(e) = &mut a[i] {
+                let x: i128 = (*e).into();
+                *e = ((x as u64) ^ 1).into();
+                Some(format!("{name}[{i}]: bit flipped"))
+            } else {
+                None
+            }
+        }
+        V::Bytes(b) if !b.is_empty() => {
+            let i = ch.idx("mut.elem", b.len());
+            b[i] ^= 1;
+            Some(format!("{name}[{i}]: bit flipped"))
+        }
+        _ => None,
     }
 }
